@@ -153,14 +153,19 @@ pub struct SchedReader {
     pub calls: usize,
     pub fault_at: Option<usize>,
     pub faulted: bool,
+    pub fault_kind: io::ErrorKind,
 }
 
 impl SchedReader {
     pub fn new(data: Vec<u8>, sched: Vec<usize>) -> Self {
-        SchedReader { data, pos: 0, sched, calls: 0, fault_at: None, faulted: false }
+        SchedReader { data, pos: 0, sched, calls: 0, fault_at: None, faulted: false, fault_kind: io::ErrorKind::Other }
     }
     pub fn with_fault(mut self, at: Option<usize>) -> Self {
         self.fault_at = at;
+        self
+    }
+    pub fn with_fault_kind(mut self, k: io::ErrorKind) -> Self {
+        self.fault_kind = k;
         self
     }
     fn quota(&mut self) -> io::Result<usize> {
@@ -168,7 +173,7 @@ impl SchedReader {
         self.calls += 1;
         if self.fault_at == Some(k) {
             self.faulted = true;
-            return Err(io::Error::other("injected source fault"));
+            return Err(io::Error::new(self.fault_kind, "injected source fault"));
         }
         if self.sched.is_empty() {
             return Ok(usize::MAX);
@@ -204,6 +209,10 @@ impl SchedBufReader {
     }
     pub fn with_fault(mut self, at: Option<usize>) -> Self {
         self.inner.fault_at = at;
+        self
+    }
+    pub fn with_fault_kind(mut self, k: io::ErrorKind) -> Self {
+        self.inner.fault_kind = k;
         self
     }
 }
